@@ -285,10 +285,12 @@ class Session:
                 if info["paths"] > max_paths:
                     raise Unsupported(f"path explosion in {contract.target}")
                 p = PathCtx(preset, worklist, sink)
+                p.values = dict(variant)
                 self.side_assumptions = []
                 mk = Maker(self)
                 args = contract.make_args(mk, **variant)
                 A = Args(args)
+                p.inputs = mk.inputs
                 self.last_inputs = mk.inputs
                 self._cur_args = A
                 interp = Interp(p, self)
